@@ -83,7 +83,7 @@ PROPS = {
         level_note="partial: Merkle structure proved; codec/hash/signature clauses are exercised on the real code (crypto primitives are outside what a Gallina model can carry)",
         technique="machine-checked proof in Coq 8.16.1 (Merkle/SHA-256 models) + correspondence check with internal/merkle, internal/crypto, internal/consensus"),
     "C20": dict(family="tla", level="proof", title="The shipped TLA+ models keep their invariants",
-        level_text="The shipped specifications are translated to Gallina on every run (tla2coq from SANY's XML); InvTwoBlocksAccepted is proved inductive on the generated dbft and anti-MEV models for EVERY duplicate-free RM (any N, any view bound); the dbftCV3 model violates it with the permitted fault set (witness checked by vm_compute: known finding D13). TypeOK and InvFaultNodesCount are proved for every RM on the same two models (the latter when faulty and dead nodes number at most F together, as in every shipped configuration). The three larger specs are decided for the shipped configurations (N=4) by TLC, cross-checked edge by edge against the generated Gallina Next.",
+        level_text="The shipped specifications - definitions and the modules' ASSUME - are translated to Gallina on every run (tla2coq from SANY's XML); InvTwoBlocksAccepted is proved inductive on the generated dbft and anti-MEV models for EVERY duplicate-free RM, RMFault, RMDead and MaxView that satisfy the translated ASSUME (any N, views unbounded); the dbftCV3 model violates it with the permitted fault set (witness checked by vm_compute: known finding D13). TypeOK and InvFaultNodesCount are proved on the same two models (the latter from the ASSUME's bound on RMFault \\cup RMDead). The three larger specs are decided for the shipped configurations (N=4) by TLC, cross-checked edge by edge against the generated Gallina Next.",
         level_note="all three invariants proved unboundedly on the translated dbft and anti-MEV models; the three larger specs by explicit-state model checking of the shipped configurations (not a proof); CV3 violates InvTwoBlocksAccepted (known finding D13)",
         technique="translator (TLA+ -> Gallina) + machine-checked proof in Coq 8.16.1 on the generated models; TLC for the finite configurations"),
 }
@@ -242,6 +242,32 @@ def decide_node(pid, tier, sd):
         lines.append("VIOLATION property=%s replay=%s no-failing-input-found" % (pid, path))
         violation = True
     return finish(pid, ev, lines, violation, known_sigs, known_hits)
+
+
+def node_side(pid, tier, sd):
+    """for a property with its own decider: the monitors of that property on the node histories and its (narrow) part of the tie;
+    returns (violation line or None, coverage dict)"""
+    res = node.run_histories(tier, sd)
+    if "build_failed" in res:
+        path = write_replay(pid, "build", {"property": pid, "what": "the %s does not build against /repo's current tree" % res["build_failed"], "log": res["log"][-3000:]})
+        return "VIOLATION property=%s replay=%s no-failing-input-found" % (pid, path), {"node_histories": "build failed"}
+    agg = node.aggregate(res)
+    _, known_hits, new_hits = classify_hits(pid, agg["mon"])
+    rel = [d for j in res["jobs"] for d in j["dis"] if node.relevant(pid, d, j["name"])]
+    cov = {"node_histories": {"api_calls": agg["ops"], "monitor_checks_evaluated": agg["moncnt"].get(pid, 0), "monitor_hits_new": len(new_hits),
+                              "disagreements_in_projection": len(rel), "cache_reused": res.get("_cache_reused", False)}}
+    if new_hits:
+        h = new_hits[0]
+        path = write_replay(pid, "mon-%d-%s-%d" % (sd, h["job"], h["run"]), {
+            "property": pid, "kind": "monitor", "signature": h["sig"], "what": h["desc"], "history_cmd": "verifh " + h["cmd"],
+            "run": h["run"], "op": h["op"], "all_new_hits": new_hits[:20]})
+        return "VIOLATION property=%s replay=%s" % (pid, path), cov
+    if rel:
+        path = write_replay(pid, "tie-%d" % sd, {"property": pid, "kind": "no-failing-input-found",
+                                                 "no_longer_checks": [{"broken": "correspondence between the Coq node model and the implementation on this property's projection", "first": rel[0], "count": len(rel), "more": rel[1:10]}],
+                                                 "searched": "monitor of %s over %d API calls of the node histories: no hit" % (pid, agg["ops"])})
+        return "VIOLATION property=%s replay=%s no-failing-input-found" % (pid, path), cov
+    return None, cov
 
 
 def replay(pid, path):
